@@ -368,11 +368,15 @@ def resolve_globs(glob_path: str, root_path: str = None) -> list[str]:
         # pathlib cannot glob for the directory itself ("." or "./")
         if os.path.normpath(glob_path) == ".":
             return [str(Path(root_path).resolve())]
-        return [str(p.resolve()) for p in Path(root_path).resolve().glob(glob_path)]
+        return [
+            str(p.resolve())
+            for p in Path(root_path).resolve().glob(glob_path)
+            if p.exists()  # a dangling symbolic link matches but leads nowhere
+        ]
     p = Path(glob_path).resolve()
     root = p.anchor  # drive letter + root path
     rel = str(p.relative_to(root))  # contains glob pattern
-    return [str(p.resolve()) for p in Path(root).glob(rel)]
+    return [str(p.resolve()) for p in Path(root).glob(rel) if p.exists()]
 
 
 def only_dirs(paths: list[str]) -> list[str]:
